@@ -49,7 +49,32 @@ def run(ctx):
         for l in read_lines(viol)[:10]:
             ctx.report("property violated by the implementation: " + l[:600], {"finding": l,
                        "replay": "VERIF_SEED=%d ./check C06 %s" % (ctx.seed, ctx.tier)})
+    # ---- control side: the real handlePkt on one UDP flow
+    gen_src = open(os.path.join(os.path.dirname(os.path.dirname(os.path.abspath(__file__))), "harness", "overlay", "component", "sniffing", "c06_gen_test.go")).read()
+    gen_ctl = os.path.join(ctx.out, "c06_gen_control_test.go")
+    open(gen_ctl, "w").write(gen_src.replace("package sniffing", "package control", 1))
+    binc = ctx.go_test_build("control", ["control/c06_test.go", gen_ctl], "c06flow")
+    if not binc:
+        return 2
+    rc, out = ctx.run_harness(binc, "TestVerifC06Flow")
+    fops, fimpl, fmodel = (os.path.join(ctx.out, "c06flow." + e) for e in ("ops", "impl", "model"))
+    if rc != 0 or not os.path.exists(fops):
+        ctx.say("HARNESS-FAILED", out[-3000:])
+        return 2
+    if not ctx.driver("c06drv", fops, fmodel):
+        ctx.proof_failures.append("model driver c06drv failed to run on c06flow")
+    for ln, op, im, mo in ctx.diff_streams(fops, fimpl, fmodel, "c06flow")[:10]:
+        ctx.report(f"handlePkt differs from proved flow model at line {ln}: impl `{im[:300]}` model `{mo[:300]}`",
+                   {"stream": "c06flow", "line": ln, "op": op, "impl": im, "model": mo,
+                    "replay": "VERIF_SEED=%d ./check C06 %s" % (ctx.seed, ctx.tier)})
+    fviol = os.path.join(ctx.out, "c06flow.viol")
+    if os.path.exists(fviol):
+        for l in read_lines(fviol)[:10]:
+            ctx.report("property violated by the implementation (handlePkt): " + l[:600], {"finding": l,
+                       "replay": "VERIF_SEED=%d ./check C06 %s" % (ctx.seed, ctx.tier)})
+    fstats = json.load(open(os.path.join(ctx.out, "c06flow.stats.json")))
     opl = read_lines(ops)
+    flow_ops = read_lines(fops)
     kinds = {}
     distinct = set()
     for op in opl:
@@ -60,6 +85,9 @@ def run(ctx):
     stats = json.load(open(os.path.join(ctx.out, "c06.stats.json")))
     ctx.samples = stats["samples"][:4] + [o[:300] for o in opl[:3]] + [o[:300] for o in opl if o.startswith("udp ")][:2]
     ctx.cov["input_distribution"] = stats["counters"]
+    ctx.cov["flow_distribution"] = fstats["counters"]
+    kinds["pkt"] = len(flow_ops)
+    distinct |= set(flow_ops)
     ctx.cov["op_kinds"] = kinds
     ctx.assumptions = [
         "one ClientHello per TLS record (hellos fragmented over several records are out of the sniffer's scope)",
@@ -67,6 +95,7 @@ def run(ctx):
     ]
     return ctx.finish(rule="one op = one input to the real code and to the model: tls/rec (bytes -> name|error), "
                            "tcp (scripted reads + drain mode -> answer, buffer, relayed bytes, end), http, norm, "
-                           "frames/qext (CRYPTO reassembly, locator), udp (datagram sequence -> per-datagram answer + kept datagrams); "
+                           "frames/qext/fenc (CRYPTO reassembly, locator, frame encoders), udp (datagram sequence -> per-datagram answer + kept datagrams), "
+                           "pkt (datagram sequence through the real handlePkt -> what reaches the outbound after each, what is held, sniffed domain); "
                            "distinct_nontrivial counts distinct tls/rec/tcp/udp/http/frames/qext op lines",
-                      evaluations=len(opl), distinct=len(distinct))
+                      evaluations=len(opl) + len(flow_ops), distinct=len(distinct))
